@@ -408,12 +408,12 @@ func (s *Sim) checkClaimSet(v *recView) {
 	for _, p := range rec.Claimed {
 		got[p.Name] = true
 	}
-	for n := range got {
+	for _, n := range sortedKeys(got) {
 		if !want[n] {
 			s.violate("C10", "C10.claim-set", "claimed-extra", fmt.Sprintf("set %s claimed pod %s which the model does not (owner/labels/name/adoption)", cs.Name, n))
 		}
 	}
-	for n := range want {
+	for _, n := range sortedKeys(want) {
 		if !got[n] {
 			s.violate("C10", "C10.claim-set", "claimed-missing", fmt.Sprintf("set %s did not claim pod %s", cs.Name, n))
 		}
@@ -502,7 +502,7 @@ func (s *Sim) checkPodActions(v *recView) {
 			case podTerminal(p):
 				a.class = "replace"
 				s.count("probe.failed_pod_replacement")
-			case !v.updCand[podRevision(p)] && !podTerminating(p):
+			case v.outdated(podRevision(p)) && !podTerminating(p):
 				a.class = "update"
 				s.count("probe.update_delete")
 				if v.onDelete {
@@ -566,7 +566,7 @@ func (s *Sim) checkPodActions(v *recView) {
 		for _, a := range acts {
 			switch a.class {
 			case "create":
-				for j := range v.D {
+				for _, j := range sortedOrdinals(v.D) {
 					if j >= a.ord {
 						continue
 					}
@@ -610,7 +610,7 @@ func (s *Sim) checkPodActions(v *recView) {
 			continue
 		}
 		nUpd++
-		for j := range v.D {
+		for _, j := range sortedOrdinals(v.D) {
 			if j <= a.ord {
 				continue
 			}
@@ -639,7 +639,7 @@ func (s *Sim) checkPodActions(v *recView) {
 				deleted[a.ord] = true
 			}
 		}
-		for ord := range v.D {
+		for _, ord := range sortedOrdinals(v.D) {
 			p, okp := v.claimed[ord]
 			if !okp && !created[ord] {
 				s.violate("C14", "C14.incomplete", "create", fmt.Sprintf("Parallel: vacant desired ordinal %d of %s not created in this reconcile", ord, set.Name))
@@ -648,7 +648,13 @@ func (s *Sim) checkPodActions(v *recView) {
 				s.violate("C14", "C14.incomplete", "replace", fmt.Sprintf("Parallel: terminal pod at ordinal %d not replaced in this reconcile", ord))
 			}
 		}
-		for ord, p := range K {
+		var kOrds []int32
+		for ord := range K {
+			kOrds = append(kOrds, ord)
+		}
+		sort.Slice(kOrds, func(i, j int) bool { return kOrds[i] < kOrds[j] })
+		for _, ord := range kOrds {
+			p := K[ord]
 			if !podTerminating(p) && !deleted[ord] {
 				s.violate("C14", "C14.incomplete", "delete", fmt.Sprintf("Parallel: condemned pod %s not deleted in this reconcile", p.Name))
 			}
@@ -660,6 +666,21 @@ func (s *Sim) checkPodActions(v *recView) {
 }
 
 func keysOf(m map[int32]bool) []int32 { return sortedOrdinals(m) }
+
+// outdated: a pod label counts as outdated if it differs from *some* revision
+// holding the current template. When several equal-content revisions exist the
+// oracle does not depend on which one the implementation picked (DESIGN.md §4.3).
+func (v *recView) outdated(label string) bool {
+	if len(v.updCand) == 0 {
+		return true
+	}
+	for c := range v.updCand {
+		if c != label {
+			return true
+		}
+	}
+	return false
+}
 
 // checkCreatedRevision: C07 created pods below the partition come from the current
 // revision, the others from the update revision (only when the rollingUpdate
